@@ -27,6 +27,7 @@ const (
 	vBool
 	vString
 	vEnum
+	vStringCat // string column with a concatenating merge function (result longer than the delta)
 	vNumKinds
 )
 
@@ -38,8 +39,8 @@ type vCell struct {
 }
 
 func vIsNumeric(k vKind) bool { return k <= vFloat64 }
-func vIsText(k vKind) bool    { return k == vString || k == vEnum }
-func vCanMerge(k vKind) bool  { return k <= vFloat64 || k == vString }
+func vIsText(k vKind) bool    { return k == vString || k == vEnum || k == vStringCat }
+func vCanMerge(k vKind) bool  { return k <= vFloat64 || k == vString || k == vStringCat }
 
 func vMask(k vKind) uint64 {
 	switch k {
@@ -81,6 +82,8 @@ func vMakeColumn(k vKind) Column {
 		return ForString()
 	case vEnum:
 		return ForEnum()
+	case vStringCat:
+		return ForString(WithMerge(func(value, delta string) string { return value + delta }))
 	}
 	panic("vMakeColumn: kind")
 }
@@ -110,7 +113,7 @@ func vSet(r Row, k vKind, col string, num uint64, str string) {
 		r.SetFloat64(col, math.Float64frombits(num))
 	case vBool:
 		r.SetBool(col, num&1 == 1)
-	case vString:
+	case vString, vStringCat:
 		r.SetString(col, str)
 	case vEnum:
 		r.SetEnum(col, str)
@@ -140,7 +143,7 @@ func vMerge(r Row, k vKind, col string, num uint64, str string) {
 		r.MergeFloat32(col, math.Float32frombits(uint32(num)))
 	case vFloat64:
 		r.MergeFloat64(col, math.Float64frombits(num))
-	case vString:
+	case vString, vStringCat:
 		r.MergeString(col, str)
 	default:
 		panic("vMerge: kind cannot merge")
@@ -185,7 +188,7 @@ func vGet(r Row, k vKind, col string) (c vCell) {
 		if r.Bool(col) {
 			c.num, c.has = 1, true
 		}
-	case vString:
+	case vString, vStringCat:
 		c.str, c.has = r.String(col)
 	case vEnum:
 		c.str, c.has = r.Enum(col)
@@ -222,6 +225,11 @@ func vModelMerge(k vKind, old vCell, num uint64, str string) vCell {
 		s := math.Float64frombits(base) + math.Float64frombits(num)
 		return vCell{has: true, num: math.Float64bits(s)}
 	case vString:
+		return vCell{has: true, str: str}
+	case vStringCat:
+		if old.has {
+			return vCell{has: true, str: old.str + str}
+		}
 		return vCell{has: true, str: str}
 	}
 	return vCell{has: true, num: (base + num) & vMask(k)}
